@@ -117,6 +117,13 @@ def gen_items(r, scratchdir, n):
     a = ("library: foo\ncxx_header: foo.hpp\noptions:\n  literalinclude: true\ndeclarations:\n- decl: class C1\n"
          "  cpp_if: if defined(USE_C1)\n  declarations:\n  - decl: C1()\n  - decl: void m(int i)\n")
     b = "library: foo\ncxx_header: foo.hpp\ndeclarations:\n- decl: class C1\n  declarations:\n  - decl: C1()\n  - decl: void m(int i)\n"
+    # several typedefs whose typemaps name the same header for C and C++ (order of the include group)
+    u = ("library: units\ncxx_header: units.hpp\ndeclarations:\n" + "".join(
+        "- decl: typedef int %s\n  fields:\n    c_header: %s.h\n    cxx_header: %s.h\n" % (t, t.lower(), t.lower())
+        for t in ("LengthId", "MassId", "TimeId", "ChargeId", "SpinId")) +
+        "- decl: void combine(LengthId a, MassId b, TimeId c, ChargeId d, SpinId e)\n")
+    os.makedirs(os.path.join(scratchdir, "units"), exist_ok=True)
+    items.append({"yaml": shroudrun.write_yaml(os.path.join(scratchdir, "units"), "units.yaml", u), "label": "gen:units", "text": u})
     for nm, t in (("shadowA", a), ("shadowB", b)):
         os.makedirs(os.path.join(scratchdir, nm), exist_ok=True)
         y = shroudrun.write_yaml(os.path.join(scratchdir, nm), "foo.yaml", t)
@@ -230,8 +237,38 @@ def run(ctx):
             jobs.append(([it], None, work, "cwd"))
             jobs.append(([it], {"TZ": "Asia/Tokyo", "LANG": "C", "LC_ALL": "C", "HOME": "/nonexistent", "USER": "someone",
                                 "COLUMNS": "40", "SHROUD_UNRELATED": "1", "PYTHONHASHSEED": "random"}, None, "environment"))
+        units = [g for g in gen if g["label"] == "gen:units"]
+        for hs in ("2", "3", "5", "7", "11", "12345"):
+            jobs.append((units, {"PYTHONHASHSEED": hs}, None, "hashseed" + hs))
         with ThreadPoolExecutor(14) as ex:
             list(ex.map(lambda j: check_seq(j[0], env=j[1], cwd=j[2], kind=j[3]), jobs))
+        # current directory holding look-alike files: a YAML `splicer:` file is found through --path, never
+        # through the current directory
+        pdir, sdir, edir = (os.path.join(work, n) for n in ("pathdir", "staledir", "emptydir"))
+        for d in (pdir, sdir, edir):
+            os.makedirs(d)
+        ytxt = ("library: gauge\ncxx_header: gauge.hpp\nsplicer:\n  f: [gsplice.f]\n  c: [gsplice.c]\n"
+                "declarations:\n- decl: int gfun(int a)\n- decl: void gstr(const std::string & s)\n")
+        yp = shroudrun.write_yaml(pdir, "gauge.yaml", ytxt)
+        for d, rev in ((pdir, 2), (sdir, 1)):
+            open(os.path.join(d, "gsplice.f"), "w").write(
+                "! splicer begin module_top\ninteger, parameter :: gauge_revision = %d\n! splicer end module_top\n" % rev)
+            open(os.path.join(d, "gsplice.c"), "w").write(
+                "// splicer begin CXX_definitions\nstatic int gauge_revision = %d;\n// splicer end CXX_definitions\n" % rev)
+        # also plant stale copies of the inputs and of earlier outputs in the stale directory
+        open(os.path.join(sdir, "gauge.yaml"), "w").write(ytxt.replace("gfun", "stale_fun"))
+        git = {"yaml": yp, "path": [pdir], "label": "gen:gauge", "text": ytxt}
+        ex0, tr0 = run_seq([strip(git)], cwd=edir)
+        ex1, tr1 = run_seq([strip(git)], cwd=sdir)
+        ctx.count(2)
+        ctx.nontrivial(("cwd-lookalike", "gauge"))
+        dd = diff_trees(tr0[0], tr1[0])
+        if dd or ex0 != ex1:
+            ctx.fail("cwd-lookalike:%s" % (dd[0] if dd else "exception"),
+                     "same absolute arguments, different current directory (holding a stale same-named splicer file): %s differ" % dd[:4],
+                     {"yaml": ytxt, "differing_files": dd[:8], "exceptions": [ex0, ex1]})
+        if b"gauge_revision = 2" not in tr0[0].get("wrapfgauge.f", b""):
+            ctx.note("cwd_lookalike_warning", "splicer from --path not found in the Fortran output (scenario lost its teeth)")
         # populated output directory: run B into a directory that already holds A's output
         for a_it, b_it in [(items[0], items[1]), (items[2], items[0])] + ([(items[3], items[4])] if thorough else []):
             d = common.scratch()
